@@ -351,8 +351,9 @@ def cliHolds (cfg : CliCfg) (c : Call) (ops : List Op) (ret : Ret) : Bool := (cl
 /-! ### the add endpoint
 
 Reading: the request is malformed when it has no multipart body, the body is not multipart or not what
-the options say it is, or any pin option or add option it carries has an undecodable value (an unknown
-chunker or hash function included).  `mode` and `pin-update` do not apply to adding (content is always pinned recursively,
+the options say it is, any pin option or add option it carries has an undecodable value (an unknown
+chunker or hash function included), or it asks for CID version 0 together with a hash function other than
+sha2-256.  `mode` and `pin-update` do not apply to adding (content is always pinned recursively,
 there is nothing to update from) and are not compared.  A well-formed request, when the cluster
 answers, yields: one allocation request carrying the options, block puts, and one Cluster.Pin of a plain
 data pin carrying exactly the options.  The endpoint streams one JSON document per added node by
@@ -374,8 +375,17 @@ def addOptionsOk (q : List (String × QV)) : Bool :=
 def bodyMismatch (q : List (String × QV)) : Bool :=
   getq q "format" == .valid (.str "car") || getq q "nocopy" == .valid (.bool true)
 
+/-- the options contradict each other: CID version 0 asked for by name together with a hash function a
+    CIDv0 cannot carry (only sha2-256 fits; when the version is not given, version 1 is what is meant) -/
+def versionContradiction (q : List (String × QV)) : Bool :=
+  getq q "cid-version" == .valid (.int 0) &&
+  (match getq q "hash" with
+   | .valid (.str s) => s != "sha2-256"
+   | _ => false)
+
 def addMalformed (r : AddReq) : Bool :=
-  r.mp != .ok || (carried r.query r.md).isNone || !addOptionsOk r.query || bodyMismatch r.query
+  r.mp != .ok || (carried r.query r.md).isNone || !addOptionsOk r.query || bodyMismatch r.query ||
+  versionContradiction r.query
 
 /-- the options compared on the add route: everything but mode and pin-update -/
 def addCmp (o : Opts) : Opts := canonOpts { o with mode := .recursive, update := none }
